@@ -33,7 +33,7 @@ func init() {
 }
 
 func c16Run(ctx *core.Ctx) {
-	maxTok, nRand := 6, 1500
+	maxTok, nRand := 6, 6000
 	if ctx.Thorough() {
 		maxTok, nRand = 8, 60000
 	}
@@ -55,7 +55,7 @@ func c16Run(ctx *core.Ctx) {
 			}
 			parts := []string{"whole", "bytes", "split", "seeded"}
 			if !ctx.Thorough() {
-				parts = []string{parts[idx%4], parts[(idx+1)%4]}
+				parts = []string{parts[idx%4], parts[(idx+1)%4], parts[(idx+2)%4]}
 			}
 			for pi, pt := range parts {
 				c := c16Case{Body: body, BodyQ: fmt.Sprintf("%q", body), Part: pt, Reject: (idx+pi)%2 == 0, Mode: mode, NRcpt: 1 + idx%3}
